@@ -319,6 +319,8 @@ func (p *Pool) stats() PoolStats {
 		ps.St.CapHits += s.CapHits
 		ps.St.Regions += s.Regions
 		ps.St.Merges += s.Merges
+		ps.St.FastImplied += s.FastImplied
+		ps.St.FastForks += s.FastForks
 		ps.SolverS += resp.SolverS
 		for _, f := range resp.Funcs {
 			fs[f] = true
